@@ -1026,10 +1026,20 @@ inline std::string executeTransition(const History& prefix, const Op& last, cons
       };
     }
 #endif
+#ifdef VERIF_LIB_HEAP
+    const bool preAllocLedger = W.alloc[0] != 2 && W.alloc[1] != 2;
+    const uint64_t heapBefore = verif::libHeapCalls();
+#endif
     Expect E = modelApply(W, last);
     std::string ret = realApply(R, last);
     R.A[0].seam = nullptr;
     R.A[1].seam = nullptr;
+#ifdef VERIF_LIB_HEAP
+    // both documents own a ledger allocator before and after: the operation may not have reached the C heap behind their backs
+    if (opt.checkLedger && preAllocLedger && W.alloc[0] != 2 && W.alloc[1] != 2 && verif::libHeapCalls() != heapBefore)
+      SR.viol("foreign-heap", std::to_string(verif::libHeapCalls() - heapBefore) +
+                                  " call(s) to malloc/realloc/free by the library although every document has its own allocator");
+#endif
     bool diverged = false;  // real and model disagree: the state is not explored further, whatever the property
     if (!E.ret.empty() && ret != E.ret) {
       diverged = true;
